@@ -362,9 +362,9 @@ public:
   }
 
   bool operator<=(const dis_interval_t &o) const {
-    if (this->is_bottom()) {
+    if (this->is_bottom() || o.is_top()) {
       return true;
-    } else if (o.is_bottom()) {
+    } else if (o.is_bottom() || this->is_top()) {
       return false;
     } else {
 
